@@ -1999,6 +1999,13 @@ impl<W: std::io::Write + std::io::Seek> Encoder<W> {
     /// or if the frame's parameters are not a match
     /// for the encoder's.
     fn encode(&mut self, frame: &Frame) -> Result<(), Error> {
+        // a frame never holds more samples than the stream's block size
+        // (a front-end can only offer more after an earlier failed write
+        // left its buffer undrained)
+        if frame.pcm_frames() > usize::from(self.blocks.streaminfo().maximum_block_size) {
+            return Err(Error::InvalidBlockSize);
+        }
+
         // drop in a new seekpoint
         self.seekpoints.push(EncoderSeekPoint {
             sample_offset: self.samples_written,
